@@ -393,6 +393,463 @@ fn small_rich(r: &mut Rng, prop: &str, seed: u64, profile: &str) -> Scenario {
     sc
 }
 
+fn plain_cfg(nthreads: usize, nlibs: usize) -> WorldCfg {
+    WorldCfg {
+        nthreads,
+        nlibs,
+        stack_pages_min: 2,
+        stack_pages_max: 6,
+        nfds: 2,
+        lib_variety: false,
+        link_map: true,
+        exe_name: "/usr/bin/app",
+    }
+}
+
+fn random_name(r: &mut Rng) -> Vec<u8> {
+    let len = r.below(16) as usize;
+    let s: String = (0..len).map(|_| *r.pick(&['a', 'b', 'Z', '0', ' ', '\t', '-', 'é', 'ß', '漢', '😀', '(', ')', ':'])).collect();
+    let mut bytes = s.into_bytes();
+    bytes.truncate(15);
+    while std::str::from_utf8(&bytes).is_err() {
+        bytes.pop();
+    }
+    bytes
+}
+
+fn gen_c15(r: &mut Rng, seed: u64, idx: u64) -> Scenario {
+    // all 2^n unreadable-name patterns for n <= 6 first (126 patterns), random afterwards
+    let mut n = 0usize;
+    let mut pattern: Option<u64> = None;
+    let mut acc = 0u64;
+    for k in 1..=6u64 {
+        if idx >= acc && idx < acc + (1 << k) {
+            n = k as usize;
+            pattern = Some(idx - acc);
+        }
+        acc += 1 << k;
+    }
+    if pattern.is_none() {
+        n = r.range(1, 32) as usize;
+    }
+    let mut b = build_world(r, &plain_cfg(n, 1));
+    let mut tags = vec![format!("n{}", if n <= 6 { n.to_string() } else { "7-32".into() })];
+    let mut unread = 0;
+    for (i, t) in b.world.threads.iter_mut().enumerate() {
+        t.comm = B(random_name(r));
+        let bad = match pattern {
+            Some(p) => p & (1 << i) != 0,
+            None => r.chance(1, 3),
+        };
+        if bad {
+            unread += 1;
+            match r.below(4) {
+                0 => t.comm_fault = Some("enoent".into()),
+                1 => t.comm_fault = Some("eacces".into()),
+                2 => t.comm_fault = Some("eio".into()),
+                _ => t.comm = B(invalid_utf8_comm(r)),
+            }
+        }
+    }
+    tags.push(format!("unreadable{}", if unread == 0 { "0" } else if unread == n { "all" } else { "some" }));
+    let mut opts = Opts { blamed: PID, ..Default::default() };
+    if pattern.is_none() && r.chance(1, 10) {
+        opts.failspots = 1 << 2;
+        tags.push("failspot-threadname".into());
+    }
+    let mut sc = simple_dump_scenario("C15", seed, if pattern.is_some() { "c15-all-patterns" } else { "c15-random" }, b, opts);
+    if r.chance(1, 4) {
+        sc.sched.read_chunk = *r.pick(&[1u64, 2, 5]);
+        tags.push("shortreads".into());
+    }
+    sc.tags = tags;
+    sc
+}
+
+fn gen_c05(r: &mut Rng, seed: u64) -> Scenario {
+    let n = thread_count(r).min(30);
+    let mut b = build_world(r, &plain_cfg(n, 1));
+    let mut tags = Vec::new();
+    let which = r.below(8);
+    let mut events = Vec::new();
+    let blamed = match which {
+        0 | 1 => PID,
+        2 | 3 | 4 => tid_of(r.below(n as u64) as usize),
+        5 => {
+            // exits between enumeration and attach
+            let t = tid_of(r.below(n as u64) as usize);
+            if t != PID {
+                events.push(Event { trig: Trigger { kind: CallKind::PtraceAttach, nth: 0, path: None }, what: EventKind::ThreadExit { tid: t } });
+                tags.push("blamed-exits".into());
+            }
+            t
+        }
+        6 => {
+            // present in /proc but cannot be attached to: another tracer holds it
+            let ti = r.below(n as u64) as usize;
+            b.world.threads[ti].foreign_tracer = true;
+            tags.push("blamed-foreign-traced".into());
+            tid_of(ti)
+        }
+        _ => {
+            if r.coin() {
+                tags.push("blamed-never-existed".into());
+                PID + 5000
+            } else {
+                let ti = r.below(n as u64) as usize;
+                b.world.threads[ti].regs[R_RSP] = 0;
+                tags.push("blamed-sandbox-thread".into());
+                tid_of(ti)
+            }
+        }
+    };
+    let mut opts = Opts { blamed, ..Default::default() };
+    if r.chance(2, 3) {
+        let (ss, sl) = b.stacks.iter().find(|s| s.0 == blamed).map(|s| (s.1, s.2)).unwrap_or((b.stacks[0].1, b.stacks[0].2));
+        let rsp = ss + sl - 0x40 - r.below(sl / 2 / 8) * 8;
+        let exe = &b.modules[0];
+        let rip = exe.base + exe.image.text_off + 0x100 + r.below(0x500);
+        let mut cs = crash_spec(r, blamed, rsp, rip);
+        // segment selectors packed as the kernel does: cs | gs << 16 | fs << 32
+        cs.gregs[REG_CSGSFS] = (0x33u64 | (r.below(0x10000) << 16) | (r.below(0x10000) << 32) | (r.below(0x10000) << 48)) as i64;
+        opts.crash = Some(cs);
+        tags.push("crash".into());
+    } else {
+        tags.push("nocrash".into());
+    }
+    if r.chance(1, 5) {
+        opts.size_limit = size_limit_choice(r, n);
+    }
+    tags.push(format!("blamed{}", which.min(6)));
+    b.world.fds.clear();
+    let mut sc = simple_dump_scenario("C05", seed, "c05-attribution", b, opts);
+    sc.events = events;
+    sc.tags = tags;
+    sc
+}
+
+fn exit_trigger(r: &mut Rng, nthreads: usize) -> (Trigger, &'static str) {
+    match r.below(6) {
+        0 => (Trigger { kind: CallKind::Opendir, nth: 0, path: Some("/task".into()) }, "before-enumeration"),
+        1 => (Trigger { kind: CallKind::Readdir, nth: r.below(nthreads as u64 + 2) as u32, path: Some("/task".into()) }, "during-enumeration"),
+        2 => (Trigger { kind: CallKind::PtraceAttach, nth: 0, path: None }, "before-first-attach"),
+        3 => (Trigger { kind: CallKind::PtraceAttach, nth: r.below(nthreads as u64) as u32, path: None }, "between-attaches"),
+        4 => (Trigger { kind: CallKind::Waitpid, nth: r.below(nthreads as u64) as u32, path: None }, "between-attach-and-wait"),
+        _ => (Trigger { kind: CallKind::Open, nth: r.below(nthreads as u64) as u32, path: Some("/comm".into()) }, "at-name-read"),
+    }
+}
+
+fn gen_c04(r: &mut Rng, seed: u64) -> Scenario {
+    let n = thread_count(r);
+    let mut b = build_world(r, &plain_cfg(n, 1));
+    b.world.fds.clear();
+    let mut tags = vec![format!("thr{}", match n { 1 => "1", 2..=5 => "2-5", 6..=24 => "6-24", _ => "25-64" })];
+    let mut opts = Opts { blamed: tid_of(r.below(n as u64) as usize), ..Default::default() };
+    // spinners
+    let nspin = if r.coin() { r.range(1, (n as u64).min(4)) as usize } else { 0 };
+    if nspin > 0 {
+        tags.push("spinners".into());
+        let words = b.add_anon(0x1000, "rw-p", r.next(), 1);
+        for s in 0..nspin {
+            let ti = r.below(n as u64) as usize;
+            let tid = tid_of(ti);
+            let (ss, sl) = stack_of(&b, tid);
+            let t = &mut b.world.threads[ti];
+            if t.program != Program::Parked {
+                continue;
+            }
+            let sp = t.regs[R_RSP];
+            let slot = (sp + 8 + r.below((ss + sl - sp - 16) / 8) * 8) & !7;
+            let app = words + s as u64 * 64;
+            t.program = Program::Spinner { stack_slot: slot, app_word: app };
+            let r12 = t.regs[R_R12];
+            b.world.plants.push((slot, r12));
+            b.world.plants.push((app, r12));
+            opts.app_memory.push((app, 8));
+        }
+    }
+    // sandbox helper threads
+    if r.chance(1, 5) && n > 1 {
+        let ti = r.range(1, n as u64 - 1) as usize;
+        if tid_of(ti) != opts.blamed {
+            b.world.threads[ti].regs[R_RSP] = 0;
+            tags.push("sandbox".into());
+        }
+    }
+    if r.chance(1, 8) && n > 1 {
+        let ti = r.range(1, n as u64 - 1) as usize;
+        if tid_of(ti) != opts.blamed {
+            b.world.threads[ti].foreign_tracer = true;
+            tags.push("foreign-tracer".into());
+        }
+    }
+    // stop behaviour
+    match r.below(6) {
+        0 => {
+            opts.failspots |= 1;
+            tags.push("stop-failspot".into());
+        }
+        1 => {
+            for t in b.world.threads.iter_mut() {
+                t.stop_latency_ns = r.below(300_000_000);
+            }
+            opts.stop_timeout_ms = Some(*r.pick(&[1u64, 10, 100]));
+            tags.push("stop-late".into());
+        }
+        2 => {
+            for t in b.world.threads.iter_mut() {
+                t.stop_latency_ns = r.below(3_000_000);
+            }
+            tags.push("stop-staggered".into());
+        }
+        _ => {}
+    }
+    // exits
+    let mut events = Vec::new();
+    if r.chance(1, 2) && n > 1 {
+        let k = match r.below(4) {
+            0 => n - 1,
+            _ => r.range(1, (n as u64 - 1).min(4)) as usize,
+        };
+        let mut chosen: Vec<usize> = (1..n).collect();
+        r.shuffle(&mut chosen);
+        let mut phases = Vec::new();
+        for ti in chosen.into_iter().take(k) {
+            let (trig, name) = exit_trigger(r, n);
+            events.push(Event { trig, what: EventKind::ThreadExit { tid: tid_of(ti) } });
+            if !phases.contains(&name) {
+                phases.push(name);
+            }
+        }
+        phases.sort();
+        tags.push(format!("exits:{}", phases.join("/")));
+    }
+    let mut sc = simple_dump_scenario("C04", seed, "c04-threads", b, opts);
+    sc.events = events;
+    sc.sched.steps_per_call = r.range(1, 7) as u32;
+    sc.tags = tags;
+    sc
+}
+
+fn gen_c06(r: &mut Rng, seed: u64, idx: u64) -> Scenario {
+    // first 512*3 indices sweep every word-aligned page offset of the stack pointer under three limit classes
+    let sweep = idx < 1536;
+    let n = if sweep { if idx % 3 == 0 { 3 } else { 24 } } else { thread_count(r) };
+    let mut cfg = plain_cfg(n, 0);
+    cfg.stack_pages_min = 1;
+    cfg.stack_pages_max = if n > 24 { 8 } else { 64 };
+    cfg.link_map = false;
+    let mut b = build_world(r, &cfg);
+    b.world.fds.clear();
+    let mut tags = vec![format!("thr{}", match n { 1 => "1", 2..=5 => "2-5", 6..=24 => "6-24", _ => "25-64" })];
+    let mut opts = Opts { blamed: PID, ..Default::default() };
+    for ti in 0..n {
+        let tid = tid_of(ti);
+        let (ss, sl) = stack_of(&b, tid);
+        let pages = sl / 0x1000;
+        let off = if sweep { (idx / 3) * 8 } else {
+            match r.below(6) {
+                0 => *r.pick(&[0u64, 8, 2040, 2048, 2056, 4088]),
+                1 => r.below(4096),
+                _ => r.below(512) * 8,
+            }
+        };
+        let page = r.below(pages);
+        let mut sp = ss + page * 0x1000 + off;
+        if !sweep {
+            match r.below(14) {
+                0 => sp = ss - 0x1000 + r.below(512) * 8, // inside the guard page (non-main) / unmapped (main)
+                1 => sp = ss - *r.pick(&[2u64, 16, 100, 255]) * 0x1000 + r.below(512) * 8,
+                2 => sp = ss - *r.pick(&[300u64, 1000]) * 0x1000,
+                _ => {}
+            }
+        }
+        b.world.threads[ti].regs[R_RSP] = sp;
+    }
+    if sweep {
+        tags.push(format!("sweep-off{}", (idx / 3) / 64));
+    }
+    let limit_class = if sweep { idx % 3 } else { r.below(4) };
+    match limit_class {
+        1 => {
+            opts.size_limit = Some(1);
+            tags.push("limit-tiny".into());
+        }
+        2 => {
+            opts.size_limit = size_limit_choice(r, n);
+            tags.push("limit-threshold".into());
+        }
+        _ => {}
+    }
+    if r.chance(1, 3) {
+        let ti = if n > 20 && r.coin() { r.range(20, n as u64 - 1) as usize } else { r.below(n as u64) as usize };
+        let tid = tid_of(ti);
+        opts.blamed = tid;
+        let (ss, sl) = stack_of(&b, tid);
+        let rsp = ss + r.below(sl / 8) * 8;
+        let exe = &b.modules[0];
+        opts.crash = Some(crash_spec(r, tid, rsp, exe.base + exe.image.text_off + 0x300));
+        tags.push(if ti >= 20 { "crash-late-thread".into() } else { "crash".into() });
+    }
+    let mut sc = simple_dump_scenario("C06", seed, if sweep { "c06-sp-offset-sweep" } else { "c06-random" }, b, opts);
+    sc.tags = tags;
+    sc
+}
+
+fn gen_c07(r: &mut Rng, seed: u64) -> Scenario {
+    let n = thread_count(r).min(40);
+    let mut cfg = plain_cfg(n, r.below(3) as usize);
+    cfg.stack_pages_max = 4;
+    let mut b = build_world(r, &cfg);
+    b.world.fds.clear();
+    let mut tags = Vec::new();
+    let mut opts = Opts { blamed: tid_of(r.below(n as u64) as usize), ..Default::default() };
+    let nreg = r.below(9);
+    for _ in 0..nreg {
+        let len = match r.below(8) {
+            0 => 1,
+            1 => r.range(2, 17),
+            2 => *r.pick(&[4095u64, 4096, 4097]),
+            3 => *r.pick(&[65535u64, 65536, 1 << 20]),
+            _ => r.range(1, 20000),
+        };
+        let pages = (len + 0xfff) / 0x1000 + 1;
+        let start = b.add_anon(pages * 0x1000, "rw-p", r.next(), 1);
+        let ptr = match r.below(4) {
+            0 => start,
+            1 => start + pages * 0x1000 - len,     // ends exactly at the mapping end (hole follows)
+            2 => start + pages * 0x1000 - len - 1, // one byte before the end
+            _ => start + r.below(pages * 0x1000 - len + 1),
+        };
+        opts.app_memory.push((ptr, len));
+    }
+    tags.push(format!("app{}", nreg.min(3)));
+    if r.chance(2, 3) {
+        let tid = opts.blamed;
+        let (ss, sl) = stack_of(&b, tid);
+        let rsp = ss + sl / 2 + r.below(sl / 16) * 8;
+        let m = r.pick(&b.modules);
+        let (lo, hi) = (m.base, m.base + m.image.file.len() as u64);
+        let (rip, pos) = match r.below(8) {
+            0 => (lo, "start"),
+            1 => (lo + 127, "start+127"),
+            2 => (lo + 128, "start+128"),
+            3 => (hi - 128, "end-128"),
+            4 => (hi - 1, "end-1"),
+            5 => (0x3000, "unmapped"),
+            _ => (lo + 200 + r.below(hi - lo - 400), "inside"),
+        };
+        opts.crash = Some(crash_spec(r, tid, rsp, rip));
+        tags.push(format!("ip-{}", pos));
+    }
+    let mut sc = simple_dump_scenario("C07", seed, "c07-memory-list", b, opts);
+    sc.tags = tags;
+    sc
+}
+
+fn gen_c20(r: &mut Rng, seed: u64) -> Scenario {
+    let n = (thread_count(r)).min(24);
+    let mut cfg = plain_cfg(n, 2);
+    cfg.stack_pages_max = 4;
+    let mut b = build_world(r, &cfg);
+    b.world.fds.clear();
+    let mut tags = Vec::new();
+    let mut opts = Opts { blamed: tid_of(r.below(n as u64) as usize), skip_unref: true, ..Default::default() };
+    // principal mapping: a library, the exe, an anonymous region, or nothing
+    let pm: Option<(u64, u64)> = match r.below(8) {
+        0 => {
+            opts.principal = Some(0x1_0000);
+            tags.push("principal-unmapped".into());
+            None
+        }
+        1 => {
+            tags.push("principal-unset".into());
+            None
+        }
+        _ => {
+            let m = r.pick(&b.modules);
+            let (lo, hi) = (m.base, m.base + m.image.file.len() as u64);
+            opts.principal = Some(match r.below(4) {
+                0 => lo,
+                1 => hi - 1,
+                _ => lo + r.below(hi - lo),
+            });
+            tags.push("principal-module".into());
+            Some((lo, hi))
+        }
+    };
+    let mut kinds: Vec<&'static str> = Vec::new();
+    for ti in 0..n {
+        let tid = tid_of(ti);
+        let (ss, sl) = stack_of(&b, tid);
+        let sp_unaligned = r.chance(1, 6);
+        let mut sp = ss + sl / 2 + r.below(sl / 4 / 8) * 8;
+        if sp_unaligned {
+            sp += r.range(1, 7);
+        }
+        b.world.threads[ti].regs[R_RSP] = sp;
+        let Some((lo, hi)) = pm else { continue };
+        let inside = lo + r.below(hi - lo);
+        let first_word = (sp + 7) & !7;
+        let last_word = ss + sl - 8;
+        let kind = match r.below(10) {
+            0 => {
+                b.world.threads[ti].regs[R_RIP] = inside;
+                "ip-inside"
+            }
+            1 => {
+                b.world.threads[ti].regs[R_RIP] = hi; // one past the end: outside
+                "ip-at-end"
+            }
+            2 => {
+                b.world.plants.push((first_word, inside));
+                "ptr-at-sp"
+            }
+            3 => {
+                b.world.plants.push((last_word, inside));
+                "ptr-last-word"
+            }
+            4 => {
+                b.world.plants.push((first_word - 16, inside)); // below the stack pointer only
+                "ptr-below-sp"
+            }
+            5 => {
+                b.world.plants.push((first_word + 8 * r.range(1, 20) + 3, inside)); // unaligned only
+                "ptr-unaligned"
+            }
+            6 => {
+                b.world.plants.push((first_word + 8 * r.range(1, 20), hi)); // == end address: outside
+                "ptr-end-address"
+            }
+            7 => {
+                b.world.plants.push((first_word + 8 * r.range(1, 20), lo));
+                "ptr-start-address"
+            }
+            8 => {
+                b.world.plants.push((first_word + 8 * r.below((last_word - first_word) / 8), inside));
+                "ptr-somewhere"
+            }
+            _ => "nothing",
+        };
+        if !kinds.contains(&kind) {
+            kinds.push(kind);
+        }
+    }
+    kinds.sort();
+    tags.push(kinds.join("/"));
+    if r.coin() {
+        let tid = opts.blamed;
+        let ti = b.world.threads.iter().position(|t| t.tid == tid).unwrap();
+        let rsp = b.world.threads[ti].regs[R_RSP];
+        let rip = b.world.threads[ti].regs[R_RIP];
+        opts.crash = Some(crash_spec(r, tid, rsp, rip));
+        tags.push("crash".into());
+    }
+    let mut sc = simple_dump_scenario("C20", seed, "c20-stack-filter", b, opts);
+    sc.tags = tags;
+    sc
+}
+
 pub fn generate(prop: &str, verif_seed: u64, idx: u64) -> Scenario {
     let seed = derive_seed(verif_seed, prop, idx);
     let mut r = Rng::new(seed);
@@ -401,6 +858,12 @@ pub fn generate(prop: &str, verif_seed: u64, idx: u64) -> Scenario {
             let benign = idx % 2 == 1;
             rich_dump(&mut r, prop, seed, if benign { "c01-benign-faults" } else { "c01-clean" }, benign).0
         }
+        "C04" => gen_c04(&mut r, seed),
+        "C05" => gen_c05(&mut r, seed),
+        "C06" => gen_c06(&mut r, seed, idx),
+        "C07" => gen_c07(&mut r, seed),
+        "C15" => gen_c15(&mut r, seed, idx),
+        "C20" => gen_c20(&mut r, seed),
         "C09" => match idx % 3 {
             0 => {
                 let mut sc = small_rich(&mut r, prop, seed, "c09-dump-dest-faults");
